@@ -79,7 +79,10 @@ def generate(rng, n, k):
                 ops.append(op)
             cell = (lambda op: (op[0], op[1], op[2])) if kind != "extra" else (lambda op: (op[0], op[1]))
             if kind == "rpms":
-                cell = lambda op: (op[0], op[1], op[6] or op[2])
+                # entries are keyed by CANONICAL names ('.rpm' and directories stripped): two spellings of one source package are
+                # the same cell, and a later add overwrites an earlier one there, so their relative order is content
+                canon = lambda n: (n[:-4] if n.endswith(".rpm") else n).rsplit("/", 1)[-1] if isinstance(n, str) else n
+                cell = lambda op: (op[0], op[1], canon(op[6] or op[2]))
             cases.append({"kind": kind, "compose": OI.valid_compose(rng, R), "ops": ops,
                           "orders": cellwise_shuffles(rng, ops, cell, k)})
         elif kind == "images":
